@@ -4,8 +4,8 @@ from vf.core import B, cstr, cZ, cbool, clist, copt, cpair
 PID = "C18"
 MODULES = ["Prelude", "C13_Model", "C19_Model", "C18_Model", "C18_Spec", "C18_Check"]
 PROPS_MODULE = "C18_Properties"
-THEOREMS = ["C18_live_kept", "C18_live_kept_refuted", "C18_reclaimed", "C18_reachable_inv",
-            "C18_reclaimed_refuted", "C18_capacity_returns"]
+THEOREMS = ["C18_live_kept", "C18_orphan_upstream_removed", "C18_live_kept_refuted", "C18_reclaimed",
+            "C18_reachable_inv", "C18_reclaimed_refuted", "C18_capacity_returns"]
 EVAL = "C18_Check.eval"
 CLAUSES = ["agree", "live", "reclaimed", "capacity"]
 RULE = ("distinct histories in which at least one instance holding a condition or a counted in-flight is removed "
@@ -22,7 +22,10 @@ TRUSTED_BASE = [
 ASSUMPTIONS = [
     "one limiter server leading every shard, local store; leadership changes are property C13",
     "a gateway uses one identity for heartbeats, reports (Spec.Instance) and acquires (clientSets.ClientID)",
-    "request ids of acquires increase (no RequestIDTooOld); every upstream used is known to the informer",
+    "request ids of acquires increase (no RequestIDTooOld)",
+    "state recorded for an upstream that left the lister is outside the live clause (the unknown-condition pass "
+    "deletes such an upstream as a whole); the global-count item of a report is checked by the spec only (its recorded "
+    "sum equals the sum over the stored conditions), the model tracks the global-allocate item",
     "a cleanup pass is atomic w.r.t. the other operations (the delete goroutines of a timeout pass have finished)",
 ]
 
@@ -138,9 +141,14 @@ def gen_hist(rng, boundary=False):
                         ops.append(R(u, i, rng.randint(0, 30), rng.choice([0, 20, 50, 90, 120]), wc=rng.chance(1, 2)))
                     else:
                         ops.append(A(u, i, rng.randint(0, cmax + 2) if rng.chance(4, 5) else 0))
+                        hbt[i] = now          # an acquire refreshes the cache entry
             elif rng.chance(1, 12):
                 # half-dead: acts without heartbeating
-                ops.append(R(rng.choice(ups), i) if rng.chance(1, 2) else A(rng.choice(ups), i, rng.randint(0, 5)))
+                if rng.chance(1, 2):
+                    ops.append(R(rng.choice(ups), i))
+                else:
+                    ops.append(A(rng.choice(ups), i, rng.randint(0, 5)))
+                    hbt[i] = now
         if churn and rng.chance(1, 4):
             u = rng.choice(ups + [b"c"])
             if u in listed and rng.chance(2, 3):
